@@ -125,6 +125,23 @@ func RunPolicyCase(cs map[string]any, id int, seed int64) Result {
 		rtmrs = four()
 		i := int(s[4] - '1')
 		rtmrs[i][rng.Intn(48)] ^= 0x40
+	case "emptyThenDiff": // an unset entry before a mismatching one
+		rtmrs = four()
+		i := rng.Intn(3)
+		rtmrs[i] = nil
+		if rng.Intn(2) == 0 {
+			rtmrs[i] = []byte{}
+		}
+		rtmrs[i+1+rng.Intn(3-i)][rng.Intn(48)] ^= 0x04
+	case "diffThenEmpty":
+		rtmrs = four()
+		i := 1 + rng.Intn(3)
+		rtmrs[i] = nil
+		rtmrs[rng.Intn(i)][rng.Intn(48)] ^= 0x04
+	case "emptyThenShort":
+		rtmrs = four()
+		rtmrs[0] = nil
+		rtmrs[2] = rtmrs[2][:47]
 	case "short2":
 		rtmrs = four()
 		rtmrs[1] = rtmrs[1][:47]
@@ -184,6 +201,16 @@ func RunPolicyCase(cs map[string]any, id int, seed int64) Result {
 	case "aboveLast":
 		minTee = cp(tee)
 		minTee[15]++
+	case "belowThenAbove": // an earlier component is above its minimum, a later one below it
+		minTee = cp(tee)
+		i := rng.Intn(15)
+		minTee[i]--
+		minTee[i+1+rng.Intn(15-i)]++
+	case "aboveThenBelow":
+		minTee = cp(tee)
+		i := rng.Intn(15)
+		minTee[i]++
+		minTee[i+1+rng.Intn(15-i)]--
 	case "len1":
 		minTee = cp(tee[:1])
 	case "len15":
